@@ -345,7 +345,37 @@ def c09(run):
                                      "'time linear in the input' is enforced only as a 5 s per-call deadline; coverage-guided fuzzing is not used (DESIGN sec. 4)"])
 
 
-PROPS = {"C01": c01, "C09": c09, "C16": c16, "C17": c17, "C18": c18, "C19": c19, "C20": c20, "C11": c11, "C14": c14, "C15": c15, "C12": c12, "C13": c13, "C05": c05, "C02": c02, "C03": c03, "C04": c04, "C06": c06, "C07": c07, "C08": c08}
+def c10(run):
+    run.selftest()
+    # ownership / aliasing
+    ocases = os.path.join(run.scratch, "own-cases.ndjson")
+    run.design_check("OwnershipModel", workers=1, env={"VERIF_GEN": run.tier, "VERIF_CASES": ocases})
+    dedupe_cases(ocases)
+    t = run.record("own", "cases", cases=ocases, n=T(run, 500, 0))
+    run.validate("own", t, "Trace_own", label="(R) OwnershipModel operation sequences on real buffers", chunk=T(run, 300, 1200), group_on="reset")
+    t = run.record("own", "sequences", n=T(run, 120, 6000))
+    run.validate("own", t, "Trace_own", label="(V) seeded decode/overwrite/encode/encrypt-in-place/inspect histories", chunk=T(run, 200, 1200), group_on="reset")
+    t = run.record("own", "reuse", n=T(run, 20, 1500))
+    run.validate("own", t, "Trace_own", label="(V) decode into used vs fresh value: 29 MAC payloads, CFList, frames, application layer", chunk=2000)
+    t = run.record("own", "bands", n=T(run, 56, 1400))
+    run.validate("own", t, "Trace_own", label="(V) band instances share no mutable state", chunk=20)
+    # concurrency
+    ccases = os.path.join(run.scratch, "regconc-cases.ndjson")
+    run.design_check("RegistryConc", workers=1, env={"VERIF_GEN": run.tier, "VERIF_CASES": ccases})
+    dedupe_cases(ccases)
+    t = run.record("regconc", "cases", cases=ccases, n=T(run, 150, 2500))
+    run.validate("regconc", t, "Trace_regconc", label="(R) RegistryConc interleavings replayed with the blocking hook as scheduler gate", chunk=2000, group_on="reset")
+    t = run.record("regconc", "free", n=T(run, 12, 200))
+    run.validate("regconc", t, "Trace_regconc", label="(V) free-running lookups / registrations, hook events in sequence order", chunk=3000, group_on="reset")
+    t = run.record("regconc", "mix", n=T(run, 9, 150))
+    run.validate("crypto", t, "Trace_crypto", label="(V) concurrent MIC / encryption / decrypt-then-decode on distinct values vs the sequential specification", chunk=T(run, 60, 200), prefix="C0")
+    run.require_kinds("own/own", "own/reuse", "own/bandiso", "regconc/hook", "crypto/setmic", "crypto/method")
+    run.rc = run.finish(assumptions=["registry hooks (build tag verif) observe the lock state with TryLock/TryRLock probes: exact under gated replay, one-sided in free-running recordings",
+                                     "data races on memory that no hook observes and that change no result are not decidable by trace validation (DESIGN sec. 4); the Go race detector is not on the verdict path",
+                                     "tracked buffers are observed over their full capacity"])
+
+
+PROPS = {"C01": c01, "C10": c10, "C09": c09, "C16": c16, "C17": c17, "C18": c18, "C19": c19, "C20": c20, "C11": c11, "C14": c14, "C15": c15, "C12": c12, "C13": c13, "C05": c05, "C02": c02, "C03": c03, "C04": c04, "C06": c06, "C07": c07, "C08": c08}
 
 
 def replay(run, path):
